@@ -149,6 +149,18 @@ func dumpFn(p *Prog, fn *ssa.Function) {
 			}
 		}
 	}
+	for _, r := range Returns(fn) {
+		if ev := retErrVal(r); ev != nil {
+			if u, ok := ev.(*ssa.UnOp); ok {
+				if g, ok := u.X.(*ssa.Global); ok && g.Pkg != nil {
+					name := short(g.Pkg.Pkg.Path()) + "." + g.Name()
+					for _, x := range guardsInto(r.Block()) {
+						fmt.Printf(" GUARD %s fails-if {%s} at %s\n", name, x.String(), p.InstrPos(x.Ifs[0]))
+					}
+				}
+			}
+		}
+	}
 	for _, a := range fn.AnonFuncs {
 		dumpFn(p, a)
 	}
